@@ -31,6 +31,12 @@ def run_prog(cfgname, thumb, code, nzcv, steps, rng, regs=None):
     st['R.R0usr'] = 0
     st['R.R1usr'] = 0
     cpu = e1.build(case)
+    if rng.random() < 0.5:
+        # the condition is evaluated against the flags of THIS processor object: run a deep copy while the original holds the opposite flags
+        import copy
+        orig, cpu = cpu, copy.deepcopy(cpu)
+        orig.registers.cpsr.value = orig.registers.cpsr.value ^ 0xF0000000
+        case = dict(case, via_deepcopy=True)
     excs = []
     for _ in range(steps):
         excs.append(target.step_budget(cpu))
@@ -243,5 +249,19 @@ def _dispatch(fn, args):
 
 def replay(case, bucket=None):
     # identity / table cases are replayed through the generic E1 differential (condition handling is part of the reference step)
+    if case.get('via_deepcopy'):
+        import copy
+        orig = e1.build(case)
+        cpu = copy.deepcopy(orig)
+        orig.registers.cpsr.value = orig.registers.cpsr.value ^ 0xF0000000
+        pre = target.snapshot(cpu)
+        M = Machine(pre, [tuple(m) for m in case['mems']], diff.full_cfg(case['cfg']))
+        for _ in range(case.get('steps', 1)):
+            if target.step_budget(cpu) is not None:
+                return ['exception']
+            if rstep.step(M)[0] in ('unpred', 'skip'):
+                return []
+        d = diff.compare(M, target.snapshot(cpu), pre)
+        return [e1prop.sig(d)] if d else []
     res = diff.run(case)
     return [e1prop.sig(res.diffs)] if res.diffs else []
